@@ -208,12 +208,12 @@ func writeJSON(path string, v interface{}) {
 func TestSim(t *testing.T) {
 	if *fList {
 		type pi struct {
-			ID, Level, Rule               string
-			QuickRuns, ThoroughRuns       int
-			Real, Stub, Assumptions       []string
-			BudgetIsViolation             bool
-			RaceMode                      bool
-			RaceCompanion                 string
+			ID, Level, Rule         string
+			QuickRuns, ThoroughRuns int
+			Real, Stub, Assumptions []string
+			BudgetIsViolation       bool
+			RaceMode                bool
+			RaceCompanion           string
 		}
 		var l []pi
 		for _, p := range props {
